@@ -59,6 +59,8 @@ def run(ctx):
     ctx.coverage["distinct_nontrivial"] = cov.get("distinct_nontrivial", 0) + sc.get("distinct_nontrivial", 0)
     ctx.coverage["attribute_op_then_commit_part"] = {k: sc.get(k) for k in ("evaluations", "distinct_nontrivial",
                                                                              "correspondence_divergences")}
+    engine_check.scenario_run(ctx, "scen_engine.same_values_builder", [M.mon_c15, M.mon_c03], nontrivial, RULE, 16, 300, 5,
+                              "equal_values_two_owners_part", seed_base=830000)
 
 
 def search(ctx, broken):
